@@ -26,7 +26,9 @@ enum { side_left = 0, side_right = 1 };
 struct gs_norm  { V val; int id; unsigned long ver, calls; int id0, id1; size_t ix; };  /* last norm(): value, vector, version; first two operands */
 struct gs_res   { int idf, idA, idx, idr; unsigned long xver, rver, calls; size_t ir; };        /* last residual(f,A,x,r) */
 struct gs_pa    { int in, out; unsigned long inver, outver, calls; size_t iin, iout; };        /* last P.apply(in,out) */
-struct gs_ax    { V a, b; int idx, idy; unsigned long xver, yver, calls; size_t ix, iy; };      /* last axpby(a,x,b,y) */
+struct gs_ax    { V a, b; int idx, idy; unsigned long xver, yver, calls; size_t ix, iy;       /* last axpby(a,x,b,y) */
+                  /* handle API only: the last axpby whose OUTPUT is a single vector (not a basis element), e.g. the update of x */
+                  V va, vb; int vidx, vidy; size_t vix; unsigned long vcalls; };
 struct gs_clear { int id; unsigned long calls; };
 struct gs_spmv  { V alpha, beta; int idA, idx, idy; unsigned long xver, yver, calls; };
 struct gs_apz   { int idx, idy, idz; unsigned long zver, calls, at_ax; };                 /* last axpbypcz(a,x,b,y,c,z) */
@@ -46,11 +48,14 @@ struct gs_all {
   struct gs_spmv spmv; struct gs_apz apz; struct gs_pspmv pspmv; struct gs_copy copy;
   struct gs_bas bas; struct gs_sc sc; struct gs_lc lc; vec dummy;
 } gs;
-#define GS_ZERO (gs.norm.calls == 0 && gs.res.calls == 0 && gs.pa.calls == 0 && gs.ax.calls == 0 && gs.clear.calls == 0 \
+/* everything but the Krylov bases: no call recorded, no scalar work array element written */
+#define GS_ZERO_NOBAS (gs.norm.calls == 0 && gs.res.calls == 0 && gs.pa.calls == 0 && gs.ax.calls == 0 && gs.clear.calls == 0 \
                  && gs.spmv.calls == 0 && gs.apz.calls == 0 && gs.pspmv.calls == 0 && gs.copy.calls == 0 && gs.lc.calls == 0 \
-                 && gs.bas.upto[0] == 0 && gs.bas.upto[1] == 0 && gs.bas.upto[2] == 0 && gs.bas.upto[3] == 0 \
                  && gs.sc.hcols == 0 && gs.sc.hrows == 0 && SC_EMPTY(0) && SC_EMPTY(1) && SC_EMPTY(2) && SC_EMPTY(3) \
                  && SC_EMPTY(4) && SC_EMPTY(5) && SC_EMPTY(6) && SC_EMPTY(7))
+/* C15: no element of basis k was written in this call */
+#define BAS_EMPTY(k) (gs.bas.upto[k] == 0)
+#define GS_ZERO (GS_ZERO_NOBAS && BAS_EMPTY(0) && BAS_EMPTY(1) && BAS_EMPTY(2) && BAS_EMPTY(3))
 /* C15: a scalar work array enters the call with no element written */
 #define SC_EMPTY(a) (gs.sc.lo[a] == 0 && gs.sc.hi[a] == 0)
 
@@ -210,7 +215,11 @@ __CPROVER_requires(H_DEF(x) && (math_is_zero(b) || H_DEF(y)) && H_WOK(y))
 __CPROVER_assigns(*y.p, gs.bas, gs.ax)
 __CPROVER_ensures(H_OUT_ENS(y))
 __CPROVER_ensures(gs.ax.a == a && gs.ax.b == b && gs.ax.idx == H_ID(x) && gs.ax.idy == H_ID(y) && gs.ax.ix == H_IX(x) && gs.ax.iy == H_IX(y))
-__CPROVER_ensures(gs.ax.yver == H_VER(y) && gs.ax.calls == OLDV(gs.ax.calls) + 1);
+__CPROVER_ensures(gs.ax.yver == H_VER(y) && gs.ax.calls == OLDV(gs.ax.calls) + 1)
+__CPROVER_ensures(H_ISB(y) ? (gs.ax.va == OLDV(gs.ax.va) && gs.ax.vb == OLDV(gs.ax.vb) && gs.ax.vidx == OLDV(gs.ax.vidx) && gs.ax.vidy == OLDV(gs.ax.vidy)
+                              && gs.ax.vix == OLDV(gs.ax.vix) && gs.ax.vcalls == OLDV(gs.ax.vcalls))
+                           : (gs.ax.va == a && gs.ax.vb == b && gs.ax.vidx == H_ID(x) && gs.ax.vidy == H_ID(y) && gs.ax.vix == H_IX(x)
+                              && gs.ax.vcalls == OLDV(gs.ax.vcalls) + 1));
 
 void bh_axpbypcz(V a, hv x, V b, hv y, V c, hv z)
 __CPROVER_requires(H_DEF(x) && H_DEF(y) && (math_is_zero(c) || H_DEF(z)) && H_WOK(z))
